@@ -45,7 +45,10 @@ def requests(tier, seed):
                                 # local ports for int-form mappings are allocated on later reactor turns (as a real reactor does)
                                 asyncports=(len(out) % 2 == 1),
                                 # Tor refuses the first DEL_ONION; the caller removes again
-                                delfail=(len(out) % 3 == 2)))
+                                delfail=(len(out) % 3 == 2),
+                                # non-authenticated requests: every fifth goes through Tor.create_onion_service on a Tor
+                                # whose configuration is still loading, concurrently with another request
+                                viator=(auth_clients is None and key["kind"] != "crlf" and len(out) % 5 == 4)))
                 if auth_clients:
                     # the same request, made with an auth object that has already served another service
                     out.append(dict(out[-1], key=dict(key), clients=[dict(c) for c in auth_clients],
